@@ -109,12 +109,22 @@ structure RaceSt where
   ansLock : Bool := false
   /-- model parameter: `Topic.exit` sets the flag under the topic write lock (tie `topic_exit_flag_shape`) -/
   topicBarrier : Bool := false
+  /-- model parameter: `NSQD.Exit` waits for every connection handler and the messagePump it joins
+  (`tcpServer.Close` … `handlers.Wait`, `IOLoop` … `<-messagePumpDoneChan`) *before* it closes the topics
+  (tie `exit_joins_pumps_shape`; fixes/F23) -/
+  pumpJoin : Bool := false
+  /-- messages acknowledged into a *second* topic that a publisher created after `Exit` had closed the topics it
+  found (`GetTopic` waits for the NSQD lock that `Exit` holds while it closes them): nobody closes or flushes it -/
+  lateTopic : List Nat := []
+  /-- model parameter: `GetTopic` hands out a closed topic once `isExiting` is set (tie `get_topic_exit_shape`; fixes/F26) -/
+  newTopicGuard : Bool := false
   memCap : Nat := 4
 deriving Repr, DecidableEq
 
 inductive RaceStep where
   | pubCheck (m : Nat)      -- Topic.PutMessage: RLock, exitFlag test
   | pubSend (m : Nat)       -- … the queue write, RUnlock; returns nil → acknowledged
+  | pubNewTopic (m : Nat)   -- a publish to a topic that does not exist yet, its GetTopic coming after Exit's critical section
   | fanout                  -- topic pump moves the head of the topic queue to the channel
   | pumpRecv                -- consumer pump receives the head of the channel's memory queue
   | pumpRecvDisk            -- … or the head of the channel's disk queue (ReadChan)
@@ -143,6 +153,10 @@ def raceStep (s : RaceSt) : RaceStep → Option RaceSt
       else if s.topicClosed then some { s with putPending := s.putPending.erase m }   -- backend.Put: "exiting"
       else some { s with topicDisk := s.topicDisk ++ [m], acked := m :: s.acked, putPending := s.putPending.erase m }
     else none
+  | .pubNewTopic m =>
+    if !s.topicExiting then none                        -- earlier, Exit closes the new topic like any other (this model, another instance)
+    else if s.newTopicGuard then some s                 -- a closed topic is handed out: "exiting", not acknowledged
+    else some { s with acked := m :: s.acked, lateTopic := m :: s.lateTopic }
   | .fanout =>
     if s.topicExiting then none
     else
@@ -153,11 +167,14 @@ def raceStep (s : RaceSt) : RaceStep → Option RaceSt
           some { s with topicMem := rest, chanMem := s.chanMem ++ [m], fanned := m :: s.fanned }
         else some { s with topicMem := rest, chanDisk := s.chanDisk ++ [m], fanned := m :: s.fanned }
   | .pumpRecv =>
+    if s.pumpJoin && s.topicExiting then none           -- every pump has ended before the topics are closed
+    else
     match s.chanMem with
     | [] => none
     | m :: rest => some { s with chanMem := rest, pumpHolds := m :: s.pumpHolds }
   | .pumpRecvDisk =>
-    if s.chanClosed then none                           -- the closed disk queue hands nothing out
+    if s.pumpJoin && s.topicExiting then none
+    else if s.chanClosed then none                      -- the closed disk queue hands nothing out
     else
       match s.chanDisk with
       | [] => none
@@ -204,6 +221,7 @@ def raceStep (s : RaceSt) : RaceStep → Option RaceSt
   | .exitFlag =>
     if s.topicExiting then none
     else if s.topicBarrier && !s.putPending.isEmpty then none   -- t.Lock() waits for the publishers' read locks
+    else if s.pumpJoin && !s.pumpHolds.isEmpty then none        -- tcpServer.Close() waits for the pumps (a parked pump registers first)
     else some { s with topicExiting := true }
   | .exitChan =>
     if s.scanLock && !s.scanHolds.isEmpty then none     -- exitMutex: exit waits for the scan
@@ -233,5 +251,9 @@ def raceDone (s : RaceSt) : Bool :=
 
 /-- the tree with fixes/F17 (topic exit barrier) and fixes/F18 (answers hold the exit lock) -/
 def fixedTree : RaceSt := { ansLock := true, topicBarrier := true }
+
+/-- … and with fixes/F23 (Exit joins the connection handlers and their pumps before closing the topics) and
+fixes/F26 (GetTopic hands out a closed topic during Exit) -/
+def joinedTree : RaceSt := { ansLock := true, topicBarrier := true, pumpJoin := true, newTopicGuard := true }
 
 end Nsq.Model.Restart
